@@ -164,6 +164,19 @@ class DecShapes:
                             fixed = hi[4][0]
                         elif isinstance(hi, tuple) and hi[0] == 'cparam':
                             fixed = hi[1]
+                if fixed is None and rng == ('loop',):
+                    # `while i < N { ..; i += 1 }` / `while i < L::to_usize()`
+                    from .rules.c04 import _is_counter_star
+                    bound, body = _is_counter_star(e, None)
+                    b = strip(bound) if bound is not None else None
+                    if isinstance(b, tuple) and b[0] == 'cparam':
+                        out.append(('rep', self.term_shape(body, impl, fn), b[1]))
+                        i += 1
+                        continue
+                    if isinstance(b, tuple) and b[0] == 'call' and b[1] == 'to_usize' and b[4]:
+                        out.append(('rep', self.term_shape(body, impl, fn), b[4][0]))
+                        i += 1
+                        continue
                 if fixed is not None:
                     out.append(('rep', self.term_shape(e[2], impl, fn), fixed))
                 else:
